@@ -104,8 +104,19 @@ func HarnessC28URI() {
 	si := verifrt.NondetRange("scheme", 0, len(schemes)-1)
 	sep := seps[verifrt.NondetRange("sep", 0, len(seps)-1)]
 	root := zzvCid
+	switch verifrt.NondetRange("root", 0, 1) {
+	case 1:
+		// case-sensitive text: a CIDv0 / a base58 peer ID with upper-case letters
+		root = "QmUNLLsPACCz1vLxQVkXqqLX5R1X345qqfHbsf67hvA3Nn"
+	}
 	if strings.ToLower(schemes[si]) == "ipns" {
 		root = "a.b"
+		switch verifrt.NondetRange("nsroot", 0, 2) {
+		case 1:
+			root = "12D3KooWGzxzKZYveHXtpG6AsrUJBcWxHBFS2HsEoGTxrMLvKXtf"
+		case 2:
+			root = "Ab.Example"
+		}
 	}
 	n := verifrt.NondetRange("n", 0, verifrt.Param("N", 4))
 	tail := verifrt.NondetBytes("t", n)
